@@ -100,7 +100,8 @@ def damaged(rng):
 def corpus(ctx, rng):
     jobs = []
     opts_cycle = [[], ["--noopt"], ["--nodebump"], ["--nodebump", "--noopt"], ["--drop-water"],
-                  ["--titration-state-method=propka", "--with-ph=4.5"], ["--titration-state-method=propka", "--with-ph=10.5"]]
+                  ["--titration-state-method=propka", "--with-ph=4.5"], ["--titration-state-method=propka", "--with-ph=10.5"],
+                  ["--whitespace"], ["--whitespace", "--keep-chain"], ["--include-header", "--keep-chain"]]   # the written file in its other layouts
     ffs = gen.FORCE_FIELDS
     k = 0
     for x in gen.AMINO:
@@ -133,8 +134,9 @@ def corpus(ctx, rng):
         jobs.append({"what": f"strand {kind} {s}", "text": gen.pdb_text([gen.nucleic(s, kind)]), "args": ["--ff=AMBER"]})
     lig = gen.ligand_hetatm(os.path.join(DATA, "acetate.mol2"), move_to=(-14, -12, 6))
     pep = gen.peptide(["ALA", "SER", "LYS", "GLY", "ASP"])
-    jobs.append({"what": "ligand-complex", "text": gen.pdb_text([pep + gen.water((6, 14, 4), resseq=101), lig]),
-                 "args": ["--ff=AMBER", f"--ligand={os.path.join(DATA, 'acetate.mol2')}"]})
+    for fmt in ([], ["--whitespace"]):
+        jobs.append({"what": "ligand-complex", "text": gen.pdb_text([pep + gen.water((6, 14, 4), resseq=101), lig]),
+                     "args": ["--ff=AMBER", f"--ligand={os.path.join(DATA, 'acetate.mol2')}"] + fmt})
     # ... with two unparameterised hetero groups of one name and number in different chains (cofactors of a homo-dimer)
     def cof(chain, at):
         return [{"rec": "HETATM", "name": n, "resname": "XYZ", "chain": chain, "resseq": 401, "icode": "", "xyz": np.array(at) + np.array([1.4 * k, 0.3 * k, 0.0]),
@@ -214,7 +216,10 @@ def _job(job):
             matched, missing, rendered = list(bio.atoms), [], list(bio.atoms)
         lines = [ln for ln in open(out).read().split("\n") if ln.startswith(("ATOM", "HETATM"))]
         written = [ids.get(id(a), 0) for a in rendered]
-        ok_lines = len(lines) == len(rendered) and all(ln[12:16].strip() == a.name[:4] for ln, a in zip(lines, rendered))
+        if "--whitespace" in job["args"]:
+            ok_lines = len(lines) == len(rendered) and all(len(ln.split()) > 2 and ln.split()[2] == a.name for ln, a in zip(lines, rendered))
+        else:
+            ok_lines = len(lines) == len(rendered) and all(ln[12:16].strip() == a.name[:4] for ln, a in zip(lines, rendered))
         if not ok_lines:
             written = []
         addoff = "--assign-only" in job["args"] or "--clean" in job["args"]
